@@ -32,6 +32,8 @@ def case(draw):
     ff = "PARSE" if kind == "neutral" else draw(st.sampled_from(strat.FFS))
     desc = draw(e2e.structure(max_chains=3, nmax=5, contact=True, waters=True, variants=0.15,
                               nmin=2 if kind == "neutral" else 1))  # fmt: skip
+    if kind == "neutral" and draw(st.integers(0, 2)) == 0:
+        e2e.add_hidden_ends(draw, desc)  # the inner chain ends must follow the same flags
     if kind == "dropwater" and not desc.get("waters"):
         desc["waters"] = [dict(draw(strat.water()), chain="W", seq=300)]
     base = draw(st.sampled_from([[], [], ["--noopt"], ["--nodebump"]]))
